@@ -129,6 +129,11 @@ func main() {
 		os.Exit(checkMain(os.Args[2], os.Args[3], os.Args[4:]))
 	case "replay":
 		os.Exit(replayMain(os.Args[2:]))
+	case "gen":
+		if err := genAll(); err != nil {
+			fmt.Fprintln(os.Stderr, "gen:", err)
+			os.Exit(2)
+		}
 	case "list":
 		es, err := discover()
 		if err != nil {
@@ -280,6 +285,10 @@ func checkMain(prop, tierName string, extra []string) int {
 			only = strings.TrimPrefix(a, "-entry=")
 		}
 	}
+	if err := genFor(prop); err != nil {
+		fmt.Fprintln(os.Stderr, "gen:", err)
+		return 2
+	}
 	specs, err := discover()
 	if err != nil {
 		fmt.Fprintln(os.Stderr, "discover:", err)
@@ -363,4 +372,23 @@ func max(a, b int) int {
 		return a
 	}
 	return b
+}
+
+func genAll() error {
+	for _, p := range []string{"C18", "C15"} {
+		if err := genFor(p); err != nil {
+			return err
+		}
+	}
+	return nil
+}
+
+// genFor regenerates the L2 harness sources a property needs from /repo's
+// current type information.
+func genFor(prop string) error {
+	switch prop {
+	case "C18":
+		return genC18()
+	}
+	return nil
 }
